@@ -10,7 +10,7 @@ DESIGN_REF = "DESIGN.md §9 C02, §12.C02"
 COQ_TARGETS = ["Properties/C02", "Pins/C02"]
 THEOREMS = [("PdfV.Properties.C02", n) for n in
             ["C02_merge_latest", "C02_beyond_size", "C02_stream_roundtrip", "C02_stream_sections_roundtrip",
-             "C02_walk_latest", "C02_stream_no_panic", "C02_stream_bounded",
+             "C02_walk_latest", "C02_stream_no_panic", "C02_stream_bounded", "C02_table_roundtrip", "C02_table_row_20",
              "C02_merge_older_stream_refuted_before_fix"]]
 ANCHORS = ["backend.rs", "xref.rs", "parse_xref.rs", "lexer/mod.rs"]
 MODES = ["xr_merge", "xr_stream", "xr_table", "xr_locate", "xr_walk"]
@@ -219,6 +219,11 @@ def table_cases(rng, tier):
             body = X.print_table_rows(secs, eols=X.EOLS)
             tg = "eol:mixed"
         yield Case("xr_table", [body], expect=ok(*[X.section_text(f, es) for f, es in secs]), tags=["table-rt", tg])
+        # the printer of C02_table_roundtrip: any ISO white-space in the gaps, an end-of-line form per row
+        if i % 2 == 0:
+            body2 = X.print_table_layout(rng, secs if i % 8 else secs + [(first + 5, [])])
+            s2 = secs if i % 8 else secs + [(first + 5, [])]
+            yield Case("xr_table", [body2], expect=ok(*[X.section_text(f, es) for f, es in s2]), tags=["table-rt", "layout:any-white-space"])
         # malformed variants (never contain the letter 't', so the appended keyword is the first one)
         b = bytearray(body)
         for _ in range(rng.randint(1, 3)):
